@@ -241,8 +241,8 @@ class LimitedRun:
         if r == lz.SEEK_NEEDED:
             self.pos = min(n, s.seek_pos)
         self.events.append(dict(e="Code", ret=lz.retname(r), usage=cap(L.lzma_memusage(C.byref(s))),
-                                limit=cap(L.lzma_memlimit_get(C.byref(s))), live=self.al.cur, peak=self.al.take_peak(),
-                                big=max(self.al.sizes[sizes0:] or [0])))
+                                limit=cap(L.lzma_memlimit_get(C.byref(s))), live=cap(self.al.cur), peak=cap(self.al.take_peak()),
+                                big=cap(max(self.al.sizes[sizes0:] or [0]))))
         return r
 
     def run(self, policy=None, max_calls=100000):
